@@ -1651,6 +1651,54 @@ func (logT) Name() string                  { return "verifc15" }
 func (logT) Log(...interface{})            {}
 func (logT) Logf(string, ...interface{})   {}
 
+// handlerProbe: a limited task on a one-slot semaphore panics; the Stopper's
+// OnPanic handler samples the semaphore and NumTasks and then quiesces the
+// Stopper.  "A limited task holds its semaphore slot exactly while it runs"
+// and "tasks drained" cover the handler too: when it runs, the task's body is
+// over, so the slot is free, the task is no longer counted, and a Quiesce
+// from the handler returns.
+func handlerProbe() map[string]interface{} {
+	var mu sync.Mutex
+	res := map[string]interface{}{"ran": false}
+	set := func(k string, v interface{}) { mu.Lock(); res[k] = v; mu.Unlock() }
+	snap := func() map[string]interface{} {
+		mu.Lock()
+		defer mu.Unlock()
+		cp := map[string]interface{}{}
+		for k, v := range res {
+			cp[k] = v
+		}
+		return cp
+	}
+	sem := make(chan struct{}, 1)
+	done := make(chan struct{})
+	var s *stop.Stopper
+	s = stop.NewStopper(stop.OnPanic(func(v interface{}) {
+		set("sem_len_in_handler", len(sem))
+		set("num_tasks_in_handler", s.NumTasks())
+		q := make(chan struct{})
+		go func() { s.Quiesce(context.Background()); close(q) }()
+		select {
+		case <-q:
+			set("quiesce_from_handler_returned", true)
+		case <-time.After(3 * time.Second):
+			set("quiesce_from_handler_returned", false)
+		}
+		close(done)
+	}))
+	err := s.RunLimitedAsyncTask(context.Background(), "probe", sem, true, func(context.Context) { panic(bodyPanic{-7}) })
+	if err != nil {
+		set("start_error", err.Error())
+		return snap()
+	}
+	select {
+	case <-done:
+		set("ran", true)
+	case <-time.After(10 * time.Second):
+	}
+	return snap()
+}
+
 func main() {
 	seed := flag.Int64("seed", 1, "")
 	tier := flag.String("tier", "quick", "")
@@ -1827,7 +1875,7 @@ func main() {
 	}
 	vh.WriteJSON(*out, "summary.json", map[string]interface{}{
 		"ctl": len(cases), "planned": planned, "ops": nops, "max_ops": maxOps, "racing": racing, "settle_timeouts": timed, "panics": npan,
-		"op_kinds": kinds, "distinct_nontrivial": len(distinct), "late_worker_replay": lateWorker(),
+		"op_kinds": kinds, "distinct_nontrivial": len(distinct), "late_worker_replay": lateWorker(), "handler_probe": handlerProbe(),
 		"samples": []interface{}{map[string]interface{}{"caps": cases[si].Caps, "ops": cases[si].Ops,
 			"observations": len(cases[si].Obs), "events": cases[si].Events}},
 	})
